@@ -239,8 +239,20 @@ func (cs *Contracts) loadFile(path string) error {
 			}
 			switch r.head {
 			case "requires", "ensures", "panics", "panics_may", "rejects", "panic_value":
-				lab, rest := splitLabel(r.rest)
-				cl := &Clause{Kind: r.head, Tags: tags, Label: lab, Src: r.src}
+				// "in_loop N": the clause speaks about the returns inside loop N only
+				loopScope := 0
+				body := r.rest
+				if tr := strings.TrimSpace(body); strings.HasPrefix(tr, "in_loop ") {
+					f := strings.Fields(tr)
+					n, err := strconv.Atoi(f[1])
+					if err != nil {
+						return fmt.Errorf("%s: in_loop: %v", r.src, err)
+					}
+					loopScope = n
+					body = strings.TrimSpace(strings.TrimPrefix(strings.TrimSpace(tr[len("in_loop "):]), f[1]))
+				}
+				lab, rest := splitLabel(body)
+				cl := &Clause{Kind: r.head, Tags: tags, Label: lab, Src: r.src, Loop: loopScope}
 				// ensures-local ghosts: "ghost ((c cty.Value)) :: term"
 				if strings.HasPrefix(strings.TrimSpace(rest), "ghost ") {
 					rest = strings.TrimSpace(rest)[6:]
